@@ -93,6 +93,8 @@ fn set_shell_vars(sh: &mut Shell, envs: &HashMap<String, String>) {
 /// example 2: `ls | wc`
 fn run_proc(sh: &mut Shell, line: &str, tty: bool,
             capture: bool) -> CommandResult {
+    #[cfg(cicada_verif)]
+    crate::verif::tick_reset();
     let log_cmd = !sh.cmd.starts_with(' ');
     match CommandLine::from_line(line, sh) {
         Ok(cl) => {
